@@ -66,7 +66,7 @@ def q_c03_remote_insert(bodies):
         r"^sync::Replica::<'_, I>::insert_entry$": m_insert_entry,
         r" as Future>::poll$": m_poll,
         r" as FromResidual<.*>>::from_residual$": lambda ex, v: "(C_Err (conv %s))" % (split_sexpr_args(v[0])[0] if v[0].startswith("(C_Err ") else v[0]),
-        r"^sync::SignedEntry::|^sync::Entry::|^sync::Record::|^<sync::SignedEntry as |^<iroh_blobs::Hash as ": m_other,
+        r"^sync::SignedEntry::|^sync::Entry::|^sync::Record::|^<sync::SignedEntry as |^<iroh_blobs::Hash as |^store::fs::|StoreInstance|ranger::Store<": m_other,
     })
 
     class RExec(PMExec):
@@ -100,7 +100,7 @@ def q_c03_remote_insert(bodies):
                 problems.append(("a closed replica answers a remote insert with an error and stores nothing", "sat", tag + " ret=%s" % ret[:60]))
             continue
         if others:
-            problems.append(("the emptiness rule is asked about every received entry: nothing but ensure_open decides whether validate_empty runs", "sat", tag + " looked at the entry through %s" % [l[1] for l in others][:2]))
+            problems.append(("a remote insert is decided by validate_empty and insert_entry alone: the wrapper neither inspects the entry nor looks at the store (what the replica holds is put's business: order independence)", "sat", tag + " looked through %s" % [l[1] for l in others][:2]))
             continue
         if [l[1] for l in ves] != ["ENTRY"]:
             problems.append(("validate_empty is asked about the received entry, exactly once, before anything is handed on", "sat", tag + " validate_empty calls=%s" % (ves,)))
